@@ -42,6 +42,7 @@ from io import StringIO
 from typing import Any, Callable, Collection, Dict, Generic, IO, Iterable, Iterator, List, Optional, Set, \
     SupportsFloat, SupportsInt, Tuple, Type, TypeVar, Union
 import itertools
+import types
 
 
 DEFAULT_GLOBALS: Dict[str, Any] = {
@@ -64,6 +65,13 @@ class ParseError(RuntimeError):
 
     def __str__(self):
         return f"{super().__str__()} at offset {self.offset}"
+
+
+INTROSPECTION_TYPES = (
+    types.GeneratorType, types.CoroutineType, types.AsyncGeneratorType, types.FrameType, types.CodeType,
+    types.TracebackType, types.FunctionType, types.BuiltinFunctionType, types.MethodType, types.ModuleType
+)
+"""Types of objects whose public attributes expose the interpreter's namespaces."""
 
 
 def get_member(obj, member: 'IdentifierToken'):
@@ -97,6 +105,10 @@ def get_member(obj, member: 'IdentifierToken'):
         raise ParseError(f"member name expected, instead found {member}", member.offset)
     if member.name.startswith('_'):
         raise ParseError(f"Cannot read protected and private member variables: {obj}.{member.name}", member.offset)
+    if isinstance(obj, INTROSPECTION_TYPES):
+        # generators, frames, code objects, etc. lead to builtins, globals and locals through public names
+        # (e.g., `gi_frame.f_builtins`), which would defeat both the underscore rule and the whitelist of builtins
+        raise ParseError(f"Cannot read members of interpreter objects: .{member.name}", member.offset)
     return getattr(obj, member.name)
 
 
